@@ -237,6 +237,8 @@ RULES += engine.premise_rules("c11", ["exits", "root-result", "windows", "cut", 
 # ... and the move found is announced only if the PV walk that runs before the announcement does not trip its own assertion
 # keys stand for positions only as far as comparing two keys compares the whole word (C05.key-identity)
 RULES += engine.premise_rules("c05", ["key-identity"])
+# what a cut child hands back is a dummy: it becomes neither a cache entry nor alpha / the best move (C13)
+RULES += engine.premise_rules("c13", ["guard", "child-score"])
 RULES += engine.premise_rules("c14", ["pv-legal"])
 
 # the mate positions reach the search as FEN strings: the position searched is the one the FEN describes (C07)
